@@ -299,6 +299,8 @@ TIE.update({
 PROPS['C16'].setdefault('tie', []).append('store_step')
 # mempool/src/quorum_waiter.rs, the acknowledgement loop (tools/skelqw.py -> coq/GenQW.v; equal to QuorumWaiterDefs.qw)
 PROPS['C12'].setdefault('tie', []).append('qw_loop')
+# mempool/src/batch_maker.rs, the select! arms of run and seal (tools/skelbm.py -> coq/GenBM.v; equal to BatchMakerDefs.bstep)
+PROPS['C11'].setdefault('tie', []).append('bm_step')
 PROPS['C16']['extra_props'] = PROPS['C16'].get('extra_props', []) + ['StoreGen']   # C16 stated about the regenerated loop itself
 PROPS['C16']['vo'] = PROPS['C16']['vo'] + ['Props/StoreGen.vo']
 for _f, _ps in TIE.items():
